@@ -53,6 +53,8 @@ def parse(so):
             res["exit_alive"] = (p[1], int(p[2]))
         elif p[0] == "DEADLOCK":
             res["deadlock"] = (int(p[1]), p[2:])
+        elif p[0] == "ENABLED":
+            res["enabled"] = p[1:]
         elif p[0] == "DONE":
             res["done"] = p[1] == "1"
         elif p[0] == "HANDLED":
@@ -139,6 +141,41 @@ def run(ctx, n_quick=60, n_search=2500):
             found += 1
             if found >= 4:
                 return
+        if searching and not found:
+            for (workers, scripts, mode, spurious, pre) in [(1, [[1]], 0, 0, 3), (1, [[1]], 0, 1, 2), (2, [[1, 2]], 0, 0, 2), (2, [[1]], 1, 0, 2)]:
+                bad, sched = enumerate_runs(ctx, binary, workers, scripts, mode, spurious, pre, 500 if ctx.quick else 3000)
+                if bad:
+                    key, what, _cut = bad
+                    ctx.violation(what, {"explore": True, "workers": workers, "scripts": scripts, "mode": mode, "spurious": spurious,
+                                         "schedule": sched, "finding_key": key, "detail": what, "enumerated": True})
+                    return
+
+
+def enumerate_runs(ctx, binary, workers, scripts, mode, spurious, max_preempt, limit):
+    """All schedules with at most max_preempt preemptions, by re-execution of prefixes (no model): the probe reports the
+    threads able to move after an explicit schedule.  Every node is judged; returns the first failing (verdict, schedule)."""
+    stack = [([], max_preempt)]
+    nodes = 0
+    while stack and nodes < limit:
+        sched, budget = stack.pop()
+        nodes += 1
+        r = explore_once(binary, workers, scripts, mode, spurious, schedule=sched, steps=0)
+        ctx.case(("explore-enum", workers, json.dumps(scripts), mode, spurious, tuple(sched)), nontrivial=len(set(sched)) >= 2)
+        en = r.get("enabled", [])
+        bad = judge(r, workers, scripts, mode) if (r["exit_alive"] or r["deadlock"] or not en) else None
+        if bad and bad[0] != "c15:explore:no_termination":
+            return bad, sched
+        if not en or len(sched) > 70:
+            continue
+        last = sched[-1] if sched else None
+        if last in en:
+            ch = [(last, budget)] + ([(x, budget - 1) for x in en if x != last] if budget > 0 else [])
+        else:
+            ch = [(x, budget) for x in en]
+        for x, b in reversed(ch):
+            stack.append((sched + [x], b))
+    ctx.count("explore:enumerated_nodes", nodes)
+    return None, None
 
 
 def replay(ctx, data):
